@@ -3,6 +3,8 @@ package main
 import (
 	"fmt"
 	"go/constant"
+	"go/token"
+	"go/types"
 	"regexp"
 	"sort"
 	"strings"
@@ -266,23 +268,7 @@ func algLookupRule(w *World, r *Report, rule string) {
 				default:
 					base, _, isF := fieldOfElem(alt)
 					if isF {
-						edges := EdgesWhere(fn, func(b ssa.Value) (bool, bool) {
-							bo, isBo := b.(*ssa.BinOp)
-							if !isBo || bo.Op.String() != "==" {
-								return false, false
-							}
-							for _, pair := range [][2]ssa.Value{{bo.X, bo.Y}, {bo.Y, bo.X}} {
-								if !isName(pair[1]) {
-									continue
-								}
-								if b2, _, isF2 := fieldOfElem(pair[0]); isF2 && b2 == base && typeString(pair[0].Type()) == "string" {
-									return true, true
-								}
-							}
-							return false, false
-						})
-						ok = len(edges) > 0 && MustPass(fn, edges, ret.Block())
-						why = "the algorithm returned is not dominated by an equality test of the same row's name with the stored name"
+						ok, why = rowMatched(w, fn, isName, base, ret.Block(), 0)
 					}
 				}
 				r.Check(ok, rule, fmt.Sprintf("%s: algorithm returned beside a nil error #%d", funcName(fn), k), w.Pos(ret.Pos()), "the algorithm of the row whose name equals the stored name", "a stored record can be verified under another algorithm than the one stored with it: "+why)
@@ -292,4 +278,296 @@ func algLookupRule(w *World, r *Report, rule string) {
 	if n == 0 {
 		r.Unk(rule, "name -> x509 algorithm lookup of x/cfesignature", "", "no function of the module returns (x509.SignatureAlgorithm, error) for a string")
 	}
+}
+
+// sameElem: two addresses / values denote the same element: identical, or built the same way from the same index value
+// over the same package-level table (`table[i].name` and `table[i].algo` written out twice).
+func sameElem(a, b ssa.Value, depth int) bool {
+	if a == b {
+		return true
+	}
+	if depth > 4 {
+		return false
+	}
+	switch x := a.(type) {
+	case *ssa.IndexAddr:
+		y, ok := b.(*ssa.IndexAddr)
+		return ok && x.Index == y.Index && sameElem(x.X, y.X, depth+1)
+	case *ssa.FieldAddr:
+		y, ok := b.(*ssa.FieldAddr)
+		return ok && x.Field == y.Field && sameElem(x.X, y.X, depth+1)
+	case *ssa.UnOp:
+		y, ok := b.(*ssa.UnOp)
+		if !ok || x.Op != y.Op {
+			return false
+		}
+		if g, isG := x.X.(*ssa.Global); isG {
+			return y.X == ssa.Value(g)
+		}
+		return sameElem(x.X, y.X, depth+1)
+	}
+	return false
+}
+
+// elemField: v reads field f of the element denoted by base (an address or a struct value).
+func elemField(v ssa.Value) (ssa.Value, int, bool) {
+	switch x := v.(type) {
+	case *ssa.UnOp:
+		if fa, ok := x.X.(*ssa.FieldAddr); ok && x.Op == token.MUL {
+			return fa.X, fa.Field, true
+		}
+	case *ssa.Field:
+		return x.X, x.Field, true
+	}
+	return nil, 0, false
+}
+
+// rowMatched: at block `at` of fn, base denotes the table row whose string field compared equal with the name: an
+// equality edge between a string field of the same element and the name dominates the block; or base is what a finder
+// helper returned - (row, true) resp. a non-nil *row - the block lies behind the helper's positive answer, and the
+// helper answers positively only with a row matched in this sense (decided in the helper, name bound to its parameter).
+func rowMatched(w *World, fn *ssa.Function, isName func(ssa.Value) bool, base ssa.Value, at *ssa.BasicBlock, depth int) (bool, string) {
+	if depth > 2 {
+		return false, "finder helpers nested too deeply"
+	}
+	norm := normElemBase
+	base = norm(base)
+	var call *ssa.Call
+	idx := 0
+	switch x := base.(type) {
+	case *ssa.Extract:
+		call, _ = x.Tuple.(*ssa.Call)
+		idx = x.Index
+	case *ssa.Call:
+		call = x
+	}
+	if call != nil && !call.Common().IsInvoke() {
+		h := call.Common().StaticCallee()
+		if h == nil || h.Blocks == nil || !w.isProdFunc(h) {
+			return false, "the row comes from a call that cannot be inspected"
+		}
+		res := h.Signature.Results()
+		var edges []Edge
+		boolIdx := -1
+		switch {
+		case res.Len() == 2 && typeString(res.At(1-idx).Type()) == "bool":
+			boolIdx = 1 - idx
+			for _, ref := range *call.Referrers() {
+				if ex, ok := ref.(*ssa.Extract); ok && ex.Index == boolIdx {
+					edges = append(edges, boolValueEdges(fn, ex, true)...)
+				}
+			}
+		case res.Len() == 1:
+			if _, isPtr := res.At(0).Type().Underlying().(*types.Pointer); isPtr {
+				edges = NilEdges(fn, map[ssa.Value]bool{call: true}, false)
+			}
+		}
+		if len(edges) == 0 || !MustPass(fn, edges, at) {
+			return false, "the finder's positive answer is not tested before its row is used"
+		}
+		var hName []*ssa.Parameter
+		for i, a := range call.Common().Args {
+			if i < len(h.Params) && isName(a) {
+				hName = append(hName, h.Params[i])
+			}
+		}
+		hIsName := func(v ssa.Value) bool {
+			for _, p := range hName {
+				if v == ssa.Value(p) || normLocal(v) == ssa.Value(p) {
+					return true
+				}
+			}
+			return false
+		}
+		all := ReachUnder(h, func(ssa.Value) (bool, bool) { return false, false })
+		n := 0
+		for _, ret := range Returns(h) {
+			rv := retVals(ret)
+			if len(rv) != res.Len() {
+				continue
+			}
+			if boolIdx >= 0 {
+				if b, isC := constBool(rv[boolIdx]); isC && !b {
+					continue
+				}
+			}
+			for _, alt := range all.LiveValues(rv[idx]) {
+				if isNilConst(alt) {
+					continue
+				}
+				n++
+				if ok, why := rowMatched(w, h, hIsName, alt, ret.Block(), depth+1); !ok {
+					return false, "in " + funcName(h) + ": " + why
+				}
+			}
+		}
+		if n == 0 {
+			return false, funcName(h) + " never answers positively"
+		}
+		return true, ""
+	}
+	edges := EdgesWhere(fn, func(b ssa.Value) (bool, bool) {
+		bo, isBo := b.(*ssa.BinOp)
+		if !isBo || bo.Op != token.EQL {
+			return false, false
+		}
+		for _, pair := range [][2]ssa.Value{{bo.X, bo.Y}, {bo.Y, bo.X}} {
+			if !isName(pair[1]) {
+				continue
+			}
+			if b2, _, isF2 := elemField(pair[0]); isF2 && sameElem(norm(b2), base, 0) && typeString(pair[0].Type()) == "string" {
+				return true, true
+			}
+		}
+		return false, false
+	})
+	if len(edges) > 0 && MustPass(fn, edges, at) {
+		return true, ""
+	}
+	return false, "the algorithm returned is not dominated by an equality test of the same row's name with the stored name"
+}
+
+// normElemBase: the address of the element a base denotes - a local the row was copied into is replaced by what was
+// copied, a row loaded as a whole by its address.
+func normElemBase(b ssa.Value) ssa.Value {
+	if al, ok := b.(*ssa.Alloc); ok {
+		if sv := spilledValue(al); sv != nil {
+			b = sv
+		}
+	}
+	if u, ok := b.(*ssa.UnOp); ok && u.Op == token.MUL {
+		b = u.X
+	}
+	return b
+}
+
+// tableFieldOf: v reads field #field of an element of the package-level table g (`for _, u := range table { ... u.f`,
+// `table[i].f`); base is the element's address.
+func tableFieldOf(v ssa.Value) (g *ssa.Global, field int, base ssa.Value, ok bool) {
+	b, f, isF := elemField(stripConv(v))
+	if !isF {
+		return nil, 0, nil, false
+	}
+	b = normElemBase(b)
+	ia, isIA := b.(*ssa.IndexAddr)
+	if !isIA {
+		return nil, 0, nil, false
+	}
+	ld, isLd := ia.X.(*ssa.UnOp)
+	if !isLd || ld.Op != token.MUL {
+		return nil, 0, nil, false
+	}
+	gl, isG := ld.X.(*ssa.Global)
+	if !isG {
+		return nil, 0, nil, false
+	}
+	return gl, f, b, true
+}
+
+// constTable: the rows of a package-level table of struct literals whose fields are all constants (field index ->
+// constant; fields left at their zero value are absent), with the number of rows; ok is false when the table is
+// assigned anywhere but in its initialiser or its rows cannot be read.
+func constTable(w *World, g *ssa.Global) (rows map[int64]map[int]*ssa.Const, n int64, ok bool) {
+	if g == nil || g.Pkg == nil {
+		return nil, 0, false
+	}
+	initFn, _ := g.Pkg.Members["init"].(*ssa.Function)
+	if initFn == nil {
+		return nil, 0, false
+	}
+	// written only by the package initialiser
+	for _, fn := range w.ProdFuncs() {
+		if fn == initFn {
+			continue
+		}
+		for _, b := range fn.Blocks {
+			for _, in := range b.Instrs {
+				if st, isSt := in.(*ssa.Store); isSt && st.Addr == ssa.Value(g) {
+					return nil, 0, false
+				}
+			}
+		}
+	}
+	for _, b := range initFn.Blocks {
+		for _, in := range b.Instrs {
+			if st, isSt := in.(*ssa.Store); isSt && st.Addr == ssa.Value(g) {
+				if sl, isSl := st.Val.(*ssa.Slice); isSl {
+					if pt, isP := sl.X.Type().Underlying().(*types.Pointer); isP {
+						if at, isA := pt.Elem().Underlying().(*types.Array); isA {
+							n = at.Len()
+						}
+					}
+				}
+			}
+		}
+	}
+	rows = tableRows(initFn, g)
+	if n == 0 || len(rows) == 0 {
+		return nil, 0, false
+	}
+	return rows, n, true
+}
+
+// localTableFieldValues: v reads field f of an element of a local slice literal (`rows := []struct{name string; value
+// Int}{{"a", x}, {"b", y}}; for _, row := range rows { ... row.value ... }`): the values the literal stores into that
+// field, one per row (nil when v is not such a read or a row's field is not assigned exactly once).
+func localTableFieldValues(v ssa.Value) []ssa.Value {
+	b, fld, isF := elemField(stripConv(v))
+	if !isF {
+		return nil
+	}
+	ia, ok := normElemBase(b).(*ssa.IndexAddr)
+	if !ok {
+		return nil
+	}
+	sl, ok := ia.X.(*ssa.Slice)
+	if !ok {
+		return nil
+	}
+	arr, ok := sl.X.(*ssa.Alloc)
+	if !ok || arr.Referrers() == nil {
+		return nil
+	}
+	pt, ok := arr.Type().Underlying().(*types.Pointer)
+	if !ok {
+		return nil
+	}
+	at, ok := pt.Elem().Underlying().(*types.Array)
+	if !ok {
+		return nil
+	}
+	rows := map[int64]ssa.Value{}
+	for _, ref := range *arr.Referrers() {
+		ria, ok := ref.(*ssa.IndexAddr)
+		if !ok || ria.Referrers() == nil {
+			continue
+		}
+		k, ok := ria.Index.(*ssa.Const)
+		if !ok || k.Value == nil {
+			return nil
+		}
+		idx, _ := constant.Int64Val(constant.ToInt(k.Value))
+		for _, r2 := range *ria.Referrers() {
+			fa, ok := r2.(*ssa.FieldAddr)
+			if !ok || fa.Field != fld || fa.Referrers() == nil {
+				continue
+			}
+			for _, r3 := range *fa.Referrers() {
+				if st, ok := r3.(*ssa.Store); ok && st.Addr == ssa.Value(fa) {
+					if _, dup := rows[idx]; dup {
+						return nil
+					}
+					rows[idx] = st.Val
+				}
+			}
+		}
+	}
+	if int64(len(rows)) != at.Len() {
+		return nil
+	}
+	var out []ssa.Value
+	for i := int64(0); i < at.Len(); i++ {
+		out = append(out, rows[i])
+	}
+	return out
 }
